@@ -58,6 +58,7 @@ Definition h_do_act (cfg : config) (st : state) (a : act) : state * list logitem
       (st1, [LSched rc tag (if rc =? R_OK then sched_time st k t else 0)])
   | ACancel tag => (do_cancel st tag, [LCancel tag])
   | ADrop h => (do_drop st h, [LDrop h])
+  | ARaise => (st, [LRaise])
   end.
 
 Fixpoint h_do_acts (cfg : config) (st : state) (acts : list act) : state * list logitem :=
@@ -65,6 +66,7 @@ Fixpoint h_do_acts (cfg : config) (st : state) (acts : list act) : state * list 
   | [] => (st, [])
   | a :: r =>
       let '(st1, l1) := h_do_act cfg st a in
+      if has_raise l1 then (st1, l1) else
       let '(st2, l2) := h_do_acts cfg st1 r in
       (st2, l1 ++ l2)
   end.
@@ -96,6 +98,7 @@ Fixpoint h_run_loop (cfg : config) (fuel : nat) (endt : Z) (st : state) : state 
       | Some (e, rest) =>
           if e_time e <=? endt then
             let '(st1, l1) := h_exec_event cfg (set_events st rest) e in
+            if has_raise l1 then (st1, l1, false) else
             let '(st2, l2, ok) := h_run_loop cfg n endt st1 in
             (st2, l1 ++ l2, ok)
           else (set_events (set_time (set_events st rest) endt) (hpush rest e), [], true)
@@ -127,11 +130,11 @@ Definition h_step_op (cfg : config) (fuel : nat) (st : state) (o : op) : state *
   | ODrop h => let st1 := do_drop st h in (st1, 0 :: h_view st1 [])
   | ORunUntil t =>
       let '(st1, l, ok) := h_run_loop cfg fuel t st in
-      (st1, (if ok then 0 else -4) :: h_view st1 l)
+      (st1, run_head l ok ++ h_view st1 l)
   | ORunFor d =>
       let '(st1, l, ok) := h_run_loop cfg fuel (s_time st + d) st in
-      (st1, (if ok then 0 else -4) :: h_view st1 l)
-  | ORunNext => let '(st1, l) := h_run_next cfg st in (st1, 0 :: h_view st1 l)
+      (st1, run_head l ok ++ h_view st1 l)
+  | ORunNext => let '(st1, l) := h_run_next cfg st in (st1, run_head l true ++ h_view st1 l)
   | OPeek n =>
       match s_events st with
       | [] => (st, [-1; E_EMPTY])
